@@ -477,6 +477,47 @@ class _Wrap:
                 sat += a
                 uns += b
             return test.left.id, sat, uns
+        # |X| cmp c
+        if isinstance(test, ast.Compare) and len(test.ops) == 1 and type(test.ops[0]) in OPS and \
+                isinstance(test.left, ast.Call) and \
+                norm_text(test.left.func) in ('abs', 'np.abs', 'np.fabs', 'np.absolute') and \
+                len(test.left.args) == 1 and isinstance(test.left.args[0], ast.Name) and \
+                env.get(test.left.args[0].id) is not None:
+            c = self.const(test.comparators[0])
+            if c is None:
+                return None
+            name = test.left.args[0].id
+            op = OPS[type(test.ops[0])]
+            inside, outside = [], []
+            for iv in env[name]:
+                if op in ('<', '<='):
+                    lo_sat, lo_uns = _split(iv, '>' if op == '<' else '>=', -c)
+                    for p_ in lo_sat:
+                        a, b = _split(p_, op, c)
+                        inside += a
+                        outside += b
+                    outside += lo_uns
+                else:
+                    hi_sat, hi_uns = _split(iv, op, c)            # X > c
+                    outside += hi_sat
+                    for p_ in hi_uns:
+                        a, b = _split(p_, '<' if op == '>' else '<=', -c)   # X < -c
+                        outside += a
+                        inside += b
+            if op in ('<', '<='):
+                return name, inside, outside
+            return name, outside, inside
+        # np.all(test): true -> every element satisfies it; false -> nothing known.
+        # np.any(test): false -> no element satisfies it; true -> nothing known.
+        if isinstance(test, ast.Call) and len(test.args) == 1 and not test.keywords and \
+                norm_text(test.func) in ('np.all', 'all', 'np.any', 'any'):
+            inner = self.split(test.args[0], env)
+            if inner is not None:
+                name, sat, uns = inner
+                whole = list(env[name])
+                if norm_text(test.func) in ('np.all', 'all'):
+                    return name, sat, whole
+                return name, whole, uns
         return None
 
     # ---- statements; returns list of (env, description) continuing paths
@@ -550,6 +591,21 @@ class _Wrap:
                     return [(merged, desc)]
                 return out
             t = norm_text(st.test)
+            shape_only = set()
+            for n_ in ast.walk(st.test):
+                if isinstance(n_, ast.Attribute) and isinstance(n_.value, ast.Name) and \
+                        n_.attr in ('ndim', 'shape', 'size', 'dtype', 'index', 'columns'):
+                    shape_only.add(id(n_.value))
+                if isinstance(n_, ast.Call) and norm_text(n_.func) in ('isinstance', 'len',
+                                                                     'np.ndim', 'np.shape'):
+                    for a_ in n_.args[:1]:
+                        if isinstance(a_, ast.Name):
+                            shape_only.add(id(a_))
+            if any(isinstance(n_, ast.Name) and env.get(n_.id) is not None and
+                   id(n_) not in shape_only for n_ in ast.walk(st.test)):
+                # a test that inspects the angle value in a way the interval domain does not
+                # understand must not be treated as value-independent
+                raise AnalysisError('test `%s` on the angle value not understood' % t[:60])
             a = self.run(st.body, env, (desc + ', ' if desc else '') + '`%s`' % t[:40])
             b = self.run(st.orelse, env, (desc + ', ' if desc else '') + 'not `%s`' % t[:40])
             return a + b
